@@ -77,7 +77,7 @@ Definition f_fourpi : float := PrimFloat.mul 4%float f_pi.        (* 4 * np.pi *
 Definition flag (x : float) : bool :=
   match pymod x f_halfpi with Some r => is_integer r | None => false end.
 
-(* after repair D, _CRn_.clifford tests theta / 2:
+(* a candidate repair of _CRn_.clifford (tried, then withdrawn: the unit test test_cun pins the old flag) tests theta / 2:
      isinstance(theta, (float, int)) and _is_clifford_given_angle(theta / 2)
    (int / 2 is Python's correctly rounded true division: exact for |k| < 2^53) *)
 Definition flag_half (x : float) : bool := flag (PrimFloat.div x 2%float).
